@@ -49,6 +49,13 @@ TDrop == Is("stmt") /\ Ev.q.k = "drop" /\ Step
          /\ tabs' = (IF Ok(Ev.out) THEN LET i == TheTab(Tx(Ev), Ev.q.tbl) IN [tabs EXCEPT ![i].drop = @ \cup {Tx(Ev)}] ELSE tabs)
          /\ UNCHANGED <<committed, snap, sess>>
 
+\* ALTER TABLE t ALTER COLUMN c SET | DROP NOT NULL (autocommit): from then on the column does / does not admit NULL.
+\* The engine does not validate the stored rows on SET (the driver only sets it on columns that hold no NULL).
+TAlter == Is("stmt") /\ Ev.q.k = "alternn" /\ Step
+          /\ (IF HasTab(Tx(Ev), Ev.q.tbl) THEN Ok(Ev.out) ELSE Ev.out.k = "err") = TRUE
+          /\ tabs' = (IF Ok(Ev.out) THEN LET i == TheTab(Tx(Ev), Ev.q.tbl) IN [tabs EXCEPT ![i].cols[Ev.q.c].nn = Ev.q.nn] ELSE tabs)
+          /\ UNCHANGED <<committed, snap, sess>>
+
 \* CREATE UNIQUE INDEX: accepted iff the visible rows satisfy it; from then on it is a constraint of the table
 TIndex == Is("stmt") /\ Ev.q.k = "index" /\ Step
           /\ UNCHANGED <<committed, snap, sess>>
@@ -130,7 +137,7 @@ RepeatOk(e) == IF Unconstrained(e) THEN TRUE
                ELSE Ok(e.again_open) /\ SameTables(e.tables, e.again) /\ ProbeOk(e.probe)
 TCrashRead == Is("crashread") /\ Step /\ (CrashOk(Ev) = TRUE) /\ (RepeatOk(Ev) = TRUE) /\ UNCHANGED dbvars
 
-TNext == TCrashRead \/ TReset \/ TBegin \/ TSelect \/ TDml \/ TBatch \/ TCreate \/ TDrop \/ TIndex \/ TOpaque
+TNext == TCrashRead \/ TReset \/ TAlter \/ TBegin \/ TSelect \/ TDml \/ TBatch \/ TCreate \/ TDrop \/ TIndex \/ TOpaque
          \/ TCommit \/ TRollback \/ TVacuum \/ TZombie \/ TZCommit \/ TReopen \/ TNoop \/ TSizes
 TSpec == TInit /\ [][TNext]_tvars
 
